@@ -5,7 +5,7 @@
    one outcome per event out; every nil-able Go field is an option and every dereference is checked,
    a failed check makes the step return None (= the Go code would panic). *)
 From GVL Require Import NList.
-From GV_serverhostile Require Import Model Basics Inv FindFree Handlers Step Frame Proofs Release.
+From GV_serverhostile Require Import Model Basics Inv FindFree Handlers Step Frame Proofs Release WriterErr.
 Open Scope N_scope.
 
 (* hostile_no_panic: for every configuration whose served stream has at least one media, NO list of
@@ -136,6 +136,51 @@ Theorem C11_serverhostile_others_unaffected_refuted :
 Proof. exact others_unaffected_refuted. Qed.
 Print Assumptions C11_serverhostile_others_unaffected_refuted.
 
+(* ---- the writer-error path (chWriterError) and PAUSE (destroyWriter inside the handler) ----
+   The model is sequential: [SWriterErr sid] is the moment at which the session goroutine consumes the
+   error that its writer reported (for a session that plays over TCP towards a peer that has stopped
+   reading: the write timeout).  The goroutine-level fact that destroyWriter never waits for a writer
+   that is itself waiting for the session goroutine is NOT expressible in this model; it is exercised on
+   the implementation by the slow-reader stage of the harness (oracle classes named slow-reader-...). *)
+
+(* writer_error_releases: in every reachable state, the writer error of a session that has a writer
+   does not panic, answers nothing, preserves the invariant and releases everything tied to the
+   session: the session leaves Server.sessions, every connection attached to it is closed, its reader
+   and active-reader slots are gone and (UDP) no registration keyed by its address and one of its
+   client ports is left in either listener. *)
+Theorem C11_serverhostile_writer_error_releases : forall g evs s os sid ss,
+  0 < c_nmedias g -> run_events g srv0 evs = Some (s, os) ->
+  find_sess sid (v_sess s) = Some ss -> s_writer ss = true ->
+  exists s', step g s (SWriterErr sid) = Some (s', OIgnored) /\ Inv s' /\
+    find_sess sid (v_sess s') = None /\
+    (forall c, In c (v_conns s') -> ~ In (c_id c) (s_conns ss)) /\
+    (s_stream ss = true -> ~ In sid (v_readers s') /\ (is_mcast ss = false -> ~ In sid (v_active s'))) /\
+    (forall sec, s_tr ss = Some (SPUDP, sec) -> forall m, In m (s_medias ss) ->
+       (forall e, In e (v_rtp s') -> fst e <> (s_ip ss, m_rtp m)) /\
+       (forall e, In e (v_rtcp s') -> fst e <> (s_ip ss, m_rtcp m))).
+Proof. exact writer_error_releases_reachable. Qed.
+Print Assumptions C11_serverhostile_writer_error_releases.
+
+(* a writer error that is consumed when the session has no writer any more (destroyWriter ran
+   meanwhile) or when the session is gone changes nothing *)
+Theorem C11_serverhostile_writer_error_without_writer_dropped : forall g s sid,
+  (forall ss, find_sess sid (v_sess s) = Some ss -> s_writer ss = false) ->
+  step g s (SWriterErr sid) = Some (s, OIgnored).
+Proof. exact writer_error_without_writer_dropped. Qed.
+Print Assumptions C11_serverhostile_writer_error_without_writer_dropped.
+
+(* PAUSE accepted in state PLAY / RECORD over a unicast transport answers 200 without an error,
+   moves the session to PrePlay / PreRecord and leaves it WITHOUT a writer: by the theorem above a
+   write error raised while or after the PAUSE is handled is dropped and the session lives on *)
+Theorem C11_serverhostile_pause_destroys_writer : forall g s ss r s1 ss1 st e p sec,
+  sess_pause g s ss r = Some (s1, ss1, st, e) ->
+  s_state ss = SPlay \/ s_state ss = SRecord ->
+  r_verdict r = true -> s_tr ss = Some (p, sec) -> p <> SPMcast ->
+  s_writer ss1 = false /\ s_id ss1 = s_id ss /\ st = 200 /\ e <> RErr /\
+  (s_state ss = SPlay -> s_state ss1 = SPrePlay) /\ (s_state ss = SRecord -> s_state ss1 = SPreRecord).
+Proof. exact pause_destroys_writer. Qed.
+Print Assumptions C11_serverhostile_pause_destroys_writer.
+
 (* ---- non-vacuity ---- *)
 Example C11_example_invariant_initial : Inv srv0.
 Proof. exact Inv_srv0. Qed.
@@ -168,3 +213,28 @@ Example C11_example_unsupported_transport :
                      (Some [mkTr PUDP false false (Some (5000, 5001)) None None]) false (Some (1, TrNum 0)) None true in
   exists s, run_events g srv0 [SNew 1 false; SConn 1 (EReq setup)] = Some (s, [OIgnored; OResp 461 false (Some 2)]).
 Proof. eexists. vm_compute. reflexivity. Qed.
+
+(* SETUP over TCP, PLAY, then the writer fails (the peer stopped reading: write timeout): nothing is
+   answered, the session and its connection are gone, the stream has no reader left *)
+Example C11_example_writer_error_releases :
+  let setup := mkReq MSetup true true None 1 true true CTMissing None
+                     (Some [mkTr PTCP false false None (Some (0, 1)) None]) false (Some (1, TrNum 0)) None true in
+  let play := mkReq MPlay true true (Some 2) 1 true true CTMissing None None false None None true in
+  exists s, run_events cfg_all srv0 [SNew 1 false; SConn 1 (EReq setup); SConn 1 (EReq play); SWriterErr 2]
+            = Some (s, [OIgnored; OResp 200 false (Some 2); OResp 200 false (Some 2); OIgnored])
+            /\ v_conns s = [] /\ v_sess s = [] /\ v_readers s = [] /\ v_active s = [].
+Proof. eexists. vm_compute. repeat split; reflexivity. Qed.
+
+(* ... and when a PAUSE is handled first, the late writer error is dropped: the session stays (PrePlay,
+   no writer), its connection stays, its reader slot stays, it is no longer an active reader *)
+Example C11_example_pause_then_writer_error_dropped :
+  let setup := mkReq MSetup true true None 1 true true CTMissing None
+                     (Some [mkTr PTCP false false None (Some (0, 1)) None]) false (Some (1, TrNum 0)) None true in
+  let play := mkReq MPlay true true (Some 2) 1 true true CTMissing None None false None None true in
+  let pause := mkReq MPause true true (Some 2) 1 true true CTMissing None None false None None true in
+  exists s ss, run_events cfg_all srv0 [SNew 1 false; SConn 1 (EReq setup); SConn 1 (EReq play);
+                                        SConn 1 (EReq pause); SWriterErr 2]
+            = Some (s, [OIgnored; OResp 200 false (Some 2); OResp 200 false (Some 2); OResp 200 false (Some 2); OIgnored])
+            /\ length (v_conns s) = 1%nat /\ v_sess s = [ss] /\ s_state ss = SPrePlay /\ s_writer ss = false
+            /\ v_readers s = [2] /\ v_active s = [].
+Proof. do 2 eexists. vm_compute. repeat split; reflexivity. Qed.
